@@ -130,7 +130,7 @@ def check(run):
             run.check(dom, 'R5', 'df-test-dominates-wire', '%s: %s' % (st.norm, q.callee_name(w).split('::')[-1]), st.loc(w), 'a datagram reaches the wire without having passed the don\'t-fragment test', 'dominated by the failed DF test')
     engines.r2_writer_table(run, B + '::m_dont_fragment', {B + '::set_option': 'the socket option'}, required=[B + '::set_option'])
     ins = [c for c in st.calls() if (c.get('callee') or '').endswith('::insert') and q.render(st, c.get('obj')) == 'p.buffer']
-    loops = [n for n in st.all_nodes() if n['k'] == 'for' and any(x is c for c in ins for x in walk(n['body']))]
+    loops = [n for n in st.all_nodes() if n['k'] in ('for', 'rangefor', 'while') and any(x is c for c in ins for x in walk(n['body']))]
     run.check(len(ins) == 1 and len(loops) == 1 and 'p.buffer.end()' in q.render(st, ins[0]['args'][0]), 'R4', 'datagram-whole', st.norm, st.loc(), 'the datagram is not the concatenation of all send buffers appended in order', 'every buffer appended at the end of one packet')
     run.floor('R4', 8)
 
